@@ -84,12 +84,9 @@ where
     fn advance(&mut self) {
         while let Some((left_ts, (lkey, lvalue))) = self.left.front() {
             // find lower and upper limits of the interval
-            let lower = left_ts
-                .checked_sub(self.lower_bound)
-                .unwrap_or(Timestamp::MIN);
-            let upper = left_ts
-                .checked_add(self.upper_bound)
-                .unwrap_or(Timestamp::MAX);
+            // saturate in the direction of the overflow (the bounds may be negative)
+            let lower = left_ts.saturating_sub(self.lower_bound);
+            let upper = left_ts.saturating_add(self.upper_bound);
 
             if upper >= self.last_seen && !self.received_restart {
                 // there could be some elements in the interval that have not been received yet
